@@ -38,6 +38,8 @@ type c06Shared struct {
 	readers int32 // readers still running
 	// probe counters (plain maps must not be shared between tasks)
 	pinnedReq, exportPinned, doubleClose, latePins int64
+	// commitSeq is odd while the writer is inside SaveVersion (commit in flight)
+	commitSeq int64
 	// finished is a real (race-detector-visible) release/acquire pair: the
 	// readers' last action and the writer's last check before it closes the
 	// tree, as an application that closes its store after its queries ended.
@@ -340,7 +342,9 @@ func execC06(p *drv.Plan) *Out {
 					if bracket {
 						tree.SetCommitting()
 					}
+					sh.add(&sh.commitSeq, 1)
 					h, v, err := tree.SaveVersion()
+					sh.add(&sh.commitSeq, 1)
 					if bracket {
 						tree.UnsetCommitting()
 					}
@@ -541,8 +545,15 @@ func c06Read(tree *iavl.MutableTree, sched *sim.Sched, sh *c06Shared, s drv.Step
 	} else {
 		ctx += "/index-off"
 	}
+	// whether a commit was in flight at any time during this reader bundle is
+	// part of the signature: the listed findings need one
+	seq0 := sh.load(&sh.commitSeq)
 	bad := func(oracle, symptom, what, detail string) *drv.Violation {
-		return &drv.Violation{Prop: "C06", Oracle: oracle, Symptom: symptom, Class: what + "@" + ctx, Detail: fmt.Sprintf("reader of version %d (latest at start %d): %s", v, latestAtStart, detail)}
+		flight := "/no-commit"
+		if seq1 := sh.load(&sh.commitSeq); seq0%2 == 1 || seq1 != seq0 {
+			flight = "/commit-in-flight"
+		}
+		return &drv.Violation{Prop: "C06", Oracle: oracle, Symptom: symptom, Class: what + "@" + ctx + flight, Detail: fmt.Sprintf("reader of version %d (latest at start %d): %s", v, latestAtStart, detail)}
 	}
 	if exp == nil {
 		return nil
